@@ -94,3 +94,25 @@ claim(
     "clone_panic_reasons returns a copy and leaves the stored list unchanged [K-bnd].",
     trusted=["MutexIsh::locked + Vec::push abstracted as `record` (abstraction point); every error kind's route through generated code, other threads and catch_unwind are outside the contract"],
 )
+
+claim(
+    "C01",
+    "Contracts: DynCtx::match_call_pattern (InAnyOrder arm) returns the LEAST index whose matcher does not reject - Some((i, &patterns[i])) "
+    "on accept, the mapped error on a matcher error, None when all reject - with per-pattern verdicts, every counter value and the "
+    "global ordered index symbolic, and modifies no counter and not the global index [K-bnd in the number of patterns]; since the "
+    "counters are symbolic and absent from the postcondition, 'no matter how often matched before' follows.  eval_dyn bumps exactly the "
+    "selected pattern's counter [K-bnd, thorough].  CallCounter::fetch_add returns old, stores old+1 [K-full].  MockAssembler::push "
+    "appends in clause order [K-full per case], Each::call/deconstruct keep call order [K-bnd].  Lemmas: first_match_is_statement, "
+    "history_independence [V].",
+    trusted=["BTreeMap<TypeId,_>::get returns only the entry of that key (std; unreachable for Kani: TypeId ordering)", "harnesses build the no_std+spin-lock feature set; the functions under contract contain no cfg"],
+)
+
+claim(
+    "C14",
+    "Contracts: each tuple Clause impl (arity 2..16) deconstructs its elements in index order, each exactly once, stopping at the "
+    "first Err, which is returned [K-full x 15]; MockAssembler::push rejects a second clause of the other mode for the same method in "
+    "either order and appends nothing, rejects a builder carrying a responder error, appends otherwise [K-full]; Each::deconstruct "
+    "rejects a stub without patterns [K-full]; lemma nesting_is_flattening: any nesting of tuples is the left-to-right list of its "
+    "terminal clauses [V].",
+    trusted=["'at any distance' rests on the BTreeMap keyed by TypeId (std)", "the compile-time rejections (type-state) are rustc's obligation, no runtime contract exists"],
+)
